@@ -174,6 +174,7 @@ type exec struct {
 	bounds  map[string]int64
 	notes   map[string]string
 	clock   value
+	builders map[*value]*[]value
 	pcSet   map[string]bool
 	sampleModel map[string]string
 	sampleEvents []string
